@@ -63,6 +63,7 @@ type sessionScenario struct {
 	Pairs    [][]*scLine // conflict groups: run in every order
 	setup    []func(root string) error
 	Notes    []string
+	Equiv    []scEquiv // lines that describe the same run by different means (kern_dispatch_keys.go)
 }
 
 func cloneProject(p *proj.Project, name string) *proj.Project {
@@ -317,6 +318,9 @@ func buildSessionScenario(r *vh.Rng, nPlain int) *sessionScenario {
 		}
 		sc.Pairs = append(sc.Pairs, []*scLine{a, b})
 	}
+	// ---- batch-line keys that select another input or output of the same project (resultfolder=, gwId=,
+	// soilId=, fileExtension=, no poligonID): kern_dispatch_keys.go
+	sc.addKeyLines(r, add, line, after)
 	return sc
 }
 
@@ -375,6 +379,7 @@ func permutations(ls []*scLine) [][]*scLine {
 // runSessionScenario generates, runs and evaluates the scenario. sigPrefix: "session" — the
 // signatures are session:<kind>:<input class>. Returns the dispatcher correspondence cases.
 func runSessionScenario(c *vh.Ctx, bin, raceBin string, nPlain, nRandom int) (cases, impl []string) {
+	batchStyleSeed = c.Seed
 	r := c.Rng.Fork()
 	sc := buildSessionScenario(r, nPlain)
 	nRoots := 8
@@ -389,7 +394,7 @@ func runSessionScenario(c *vh.Ctx, bin, raceBin string, nPlain, nRandom int) (ca
 	inputs0 := inputSnapshot(roots[0])
 	replayBase := func() map[string]interface{} {
 		return map[string]interface{}{"projects": sc.Projects,
-			"how": "harness/cmd/check/kern_dispatch_session.go: buildSessionScenario draws the projects (replay.projects), sessionScenario.write puts them and the parameter folders parameter2 / parameterAdd (adds texture SL5, fertiliser XKB) / parameterAdd3 (adds SL6) / parameterLack (lacks TS3) into one root and removes the optional files; write batch_lines to a file in the root and run `hermes2go -module batch -batch <file> -workingdir <root> -concurrent <n>` from the root; every line alone (same command, one line) gives the reference"}
+			"how": "harness/cmd/check/kern_dispatch_session.go: buildSessionScenario draws the projects (replay.projects), sessionScenario.write puts them and the parameter folders parameter2 / parameterAdd (adds texture SL5, fertiliser XKB) / parameterAdd3 (adds SL6) / parameterLack (lacks TS3) into one root and removes the optional files; the setup functions of kern_dispatch_keys.go add the second soil profile S02, the groundwater series GX1, the crop_/poly_/automan files of extension alt; write batch_lines to a file in the root (replay.batch_file_quoted is the file as it was written) and run replay.command (`hermes2go -module batch -batch <file> [-workingdir <root>] -concurrent <n>`, options in any order) started in the root; every line alone in the canonical form (one line, one blank between the tokens, LF, `-module batch -batch <file> -workingdir <root> -concurrent 1`) gives the reference"}
 	}
 	// ---- solo runs
 	t0 := time.Now()
@@ -408,6 +413,7 @@ func runSessionScenario(c *vh.Ctx, bin, raceBin string, nPlain, nRandom int) (ca
 		payload := replayBase()
 		payload["batch_lines"] = []string{l.Text()}
 		payload["solo_outcome"] = l.SoloErr
+		payload["solo_run"] = l.SoloHow
 		payload["stderr_tail"] = l.SoloStderr
 		switch {
 		case l.SoloErr == "TIMEOUT":
@@ -471,6 +477,8 @@ func runSessionScenario(c *vh.Ctx, bin, raceBin string, nPlain, nRandom int) (ca
 			c.Note("scenario variants %s and %s give identical result files (this pair cannot reveal a shared table)", pr[0], pr[1])
 		}
 	}
+
+	sc.checkEquivalences(c, replayBase)
 
 	// ---- batches
 	var batches []*scBatch
@@ -548,6 +556,7 @@ func runSessionScenario(c *vh.Ctx, bin, raceBin string, nPlain, nRandom int) (ca
 	for _, b := range batches {
 		o := b.out
 		c.Count("session-batch:" + b.kind)
+		countBatchShape(c, o)
 		c.Count(fmt.Sprintf("session-conc:%d", b.conc))
 		keys := make([]string, len(b.lines))
 		ls := make([]*batchLine, len(b.lines))
@@ -568,6 +577,7 @@ func runSessionScenario(c *vh.Ctx, bin, raceBin string, nPlain, nRandom int) (ca
 		payload["GOMAXPROCS"] = b.procs
 		payload["stdout_tail"] = tail(o.Stdout, 1500)
 		payload["stderr_tail"] = tail(o.Stderr, 2500)
+		payload["command"], payload["batch_file_quoted"], payload["batch_file_shape"] = o.Cmd, strconv.Quote(o.BatchText), o.BatchShape
 		if strings.Contains(o.Stderr, "DATA RACE") {
 			c.Violate("search", "race:"+raceSignature(o.Stderr), "the race detector reports a data race in a session mixing parameter folders: "+raceSummary(o.Stderr), payload)
 		}
